@@ -146,6 +146,14 @@ func (x *Exec) generate(fn *ssa.Function) {
 		}
 		x.bindResults(env2, c, fn.Signature, res)
 		ce := &CEnv{x: x, st: st2, old: fr.entry, vars: env2, pkg: pkg, fr: fr, entryAllocW: fr.entry.allocW}
+		// the declared ghost effects are part of the post-state the ensures clauses talk about (same order
+		// as at a call site: ghost updates, then ensures)
+		for _, g := range c.GhostUpdates {
+			if err := ce.ghostUpdate(g); err != nil {
+				x.fail("%s ghost %q: %v", funcName(fn), g.Text, err)
+				return
+			}
+		}
 		for _, e := range c.Ensures {
 			t, err := ce.evalBool(e)
 			if err != nil {
